@@ -530,7 +530,7 @@ TIME_POINTS = [(0, 0, 0), (23, 59, 59), (24, 0, 0), (12, 60, 0), (12, 0, 60), (1
 
 
 def gen_datetime(tier, rnd):
-    for layout, fmt in itertools.product(LAYOUTS + ADJACENT_LAYOUTS, ("delimited", "excel", "fixed")):
+    for layout, fmt in itertools.product(LAYOUTS + ADJACENT_LAYOUTS, ("delimited", "excel", "ods", "fixed")):
         if fmt == "fixed" and layout not in ("DD.MM.YYYY", "hh:mm"):
             continue
         cells = []
